@@ -1,16 +1,20 @@
 #!/usr/bin/env python3
 """Writes /tmp/seed/<ID>/PROMPT.txt: the brief for an independent mutation-authoring sub-agent (property text only, nothing from /verif)."""
 import json, sys
+import os
 ids=sys.argv[1:]
+AVOID=os.environ.get('AVOID','')
+DEST=os.environ.get('DEST','')
 props={json.loads(l)['id']:json.loads(l) for l in open('/verif/properties.jsonl')}
-for i in ids:
-    p=props[i]
+for i0 in ids:
+    p=props[i0]
+    i=DEST or i0
     a=p['anchors']
     txt=f"""You are working in a scratch git worktree of the Rust repository huggingface/xet-core at /tmp/seed/{i} (a Rust client for Hugging Face Xet storage: content-defined chunking, Merkle hashing, xorb and shard binary formats, dedup index, local chunk cache). Work ONLY inside /tmp/seed/{i}. Do NOT read or use anything under /verif, /root/agents, /tmp/mut or other /tmp/seed/* directories, and do not touch /repo. The sandbox has no network; build and test with `--offline`. Use your own cargo target directory (the default /tmp/seed/{i}/target) and DELETE it (rm -rf /tmp/seed/{i}/target) when you are completely done.
 
 A semantic property of this code base that users rely on:
 
-  [{i}] {p['title']}
+  [{i0}] {p['title']}
   Statement: {p['statement']}
   Must hold: {p['quantifier']['text']}
   Where it lives: files {', '.join(a['files'])}; mechanisms: {'; '.join(m['name']+' ('+m['where']+')' for m in a.get('mechanism',[]))}.
@@ -22,7 +26,7 @@ Requirements for the change:
  * Realistic: the kind of defect a competent maintainer could introduce in a refactor, optimisation or "simplification" — shared mutable state or cursor/offset logic, an ordering of two steps, a boundary condition, a cache/bookkeeping update, an error that gets dropped, a check moved outside a lock, two sites that each look fine alone. Not sabotage that is obvious at a glance (no `if input == magic`), and not a change guarded by cfg/features.
  * It must need something SPECIFIC to manifest: a particular interleaving, a crash or fault at a particular point, a multi-step sequence of operations, an unusual input (e.g. repeated chunks, sizes at a limit, a prefix collision), a particular configuration of size limits (many constants are overridable through HF_XET_<NAME> environment variables in debug builds, see utils/src/constant_declarations.rs), or two cooperating sites. Ordinary use (what the existing tests do) must NOT expose it — the existing suite has to stay green.
  * It must genuinely violate the property as stated above (not merely some other property), observable through the public/“observable at” API listed above. Debug assertions in the repository count as part of the code: if your change makes a debug assertion fire in ordinary test runs the suite will fail, so check.
- * Keep it small (a few lines to a few dozen lines), in the files listed above if possible.
+ * Keep it small (a few lines to a few dozen lines), in the files listed above if possible.{(chr(10)+" * A different defect of this property has already been authored; do NOT repeat it, find a different mechanism: "+AVOID) if AVOID else ""}
 
 Procedure:
  1. Read the relevant code. Pick the change. Write it.
@@ -31,7 +35,7 @@ Procedure:
  4. Produce the deliverables in /tmp/seed/{i}/OUT/ :
       patch.diff   — `git diff` of the SOURCE change only (must apply with `git apply` to a clean checkout of this commit; do not include the demonstration or Cargo.lock noise)
       demo/        — the demonstration file(s) with a README.txt: where to put them and the exact command to run them
-      meta.json    — {{"property": "{i}", "summary": "<one paragraph: what the change does and why it breaks the property>", "needs_to_manifest": "<the specific interleaving / input / sequence / configuration>", "suite_result_with_patch": "<summary line of the nextest run>", "demo_with_patch": "<fails how>", "demo_without_patch": "<passes>", "commands": ["..."]}}
+      meta.json    — {{"property": "{i0}", "summary": "<one paragraph: what the change does and why it breaks the property>", "needs_to_manifest": "<the specific interleaving / input / sequence / configuration>", "suite_result_with_patch": "<summary line of the nextest run>", "demo_with_patch": "<fails how>", "demo_without_patch": "<passes>", "commands": ["..."]}}
  5. Leave the worktree's tracked files CLEAN at the end (git checkout -- . ; the OUT directory and your demo copy under OUT/demo are untracked and stay), and remove /tmp/seed/{i}/target.
 
 Your final message: a short summary of the change, what it needs to manifest, and the verification results."""
